@@ -29,6 +29,9 @@ type c13Scn struct {
 	ToCl int    `json:"to_cl"`
 	ToSv int    `json:"to_sv"`
 	Slow bool   `json:"slow"` // the client's consumers take their time
+	// Mix: the envelopes sent to the server are messages, notifications, request commands and response commands that
+	// answer nothing, in turn (each kind has its own inbound stream and its own hand-over in the receiver)
+	Mix bool `json:"mix,omitempty"`
 }
 
 // -1 = not observed
@@ -345,7 +348,22 @@ func c13Run(scn *c13Scn) c13Obs {
 		sendToServer := func() {
 			for i := 0; i < scn.ToSv; i++ {
 				sctx, sc := context.WithTimeout(ctx, 2*time.Second)
-				err := cc.SendMessage(sctx, msg(fmt.Sprintf("m%d", i), "x"))
+				var err error
+				id := fmt.Sprintf("m%d", i)
+				// which kind comes first varies with the amount of traffic: the receiver stays blocked on the first
+				// envelope it cannot hand over
+				switch k := (i + scn.ToSv) % 4; {
+				case !scn.Mix || k == 0:
+					err = cc.SendMessage(sctx, msg(id, "x"))
+				case k == 1:
+					err = cc.SendNotification(sctx, &lime.Notification{Envelope: lime.Envelope{ID: id}, Event: lime.NotificationEventReceived})
+				case k == 2:
+					rq := &lime.RequestCommand{Command: lime.Command{Envelope: lime.Envelope{ID: id}, Method: lime.CommandMethodGet}}
+					rq.SetURIString("/x")
+					err = cc.SendRequestCommand(sctx, rq)
+				default:
+					err = cc.SendResponseCommand(sctx, &lime.ResponseCommand{Command: lime.Command{Envelope: lime.Envelope{ID: id}, Method: lime.CommandMethodGet}, Status: lime.CommandStatusSuccess})
+				}
 				sc()
 				if err != nil {
 					return
@@ -531,7 +549,7 @@ func (c *c13Case) coq() string {
 func runC13(env *Env) error {
 	env.Header = "From Coq Require Import List Bool Arith.\nImport ListNotations.\nFrom Lime Require Import Base.Res Chan.Teardown Corr.C13.\n"
 	env.ShardSize = 30
-	env.Rule = "real Server (handleChannel, dispatch loop, deferred finish) and real ClientChannel / high-level Client, each scenario in its own process: 5 initiators (client FinishSession, handler error -> server finish, ServerChannel.FailSession from a handler, Client.Close, Server.Close) x in-process / TCP / WebSocket x stream capacities 0, 1, 64 x 0-40 envelopes sent right before the terminal envelope in either direction x fast / slow consumers. Non-trivial: traffic in flight in some direction. Distinct by printed scenario."
+	env.Rule = "real Server (handleChannel, dispatch loop, deferred finish) and real ClientChannel / high-level Client, each scenario in its own process: 5 initiators (client FinishSession, handler error -> server finish, ServerChannel.FailSession from a handler, Client.Close, Server.Close) x in-process / TCP / WebSocket x stream capacities 0, 1, 64 x 0-40 envelopes sent right before the terminal envelope in either direction (towards the server also as a mix of messages, notifications, request commands and unsolicited response commands) x fast / slow consumers. Non-trivial: traffic in flight in some direction. Distinct by printed scenario."
 	var rc c13Case
 	if ok, err := env.ReplayDesc(&rc); err != nil {
 		return err
@@ -572,6 +590,16 @@ func runC13(env *Env) error {
 	for _, cp := range []int{0, 1, 64} {
 		scns = append(scns, c13Scn{Kind: "tcp", Init: "crossfail", Cap: cp})
 	}
+	// mixed kinds towards a server that ends the session itself while its inbound streams fill up
+	for _, k := range kinds {
+		for _, in := range []string{"serverfinish", "serverfail", "serverclose", "clientfinish"} {
+			for _, cp := range []int{0, 1} {
+				for first := 0; first < 4; first++ {
+					scns = append(scns, c13Scn{Kind: k, Init: in, Cap: cp, ToSv: 8 + 4*cp + first, Mix: true})
+				}
+			}
+		}
+	}
 	extra := env.Pick(0, 60)
 	for i := 0; i < extra; i++ {
 		in := inits[env.Rng.Intn(len(inits))]
@@ -579,7 +607,7 @@ func runC13(env *Env) error {
 		if in == "serverfinish" || in == "serverfail" {
 			toCl = env.Rng.Intn(41)
 		}
-		scns = append(scns, c13Scn{Kind: kinds[env.Rng.Intn(3)], Init: in, Cap: caps[env.Rng.Intn(3)], ToCl: toCl, ToSv: env.Rng.Intn(21), Slow: env.Rng.Intn(2) == 0})
+		scns = append(scns, c13Scn{Kind: kinds[env.Rng.Intn(3)], Init: in, Cap: caps[env.Rng.Intn(3)], ToCl: toCl, ToSv: env.Rng.Intn(21), Slow: env.Rng.Intn(2) == 0, Mix: env.Rng.Intn(2) == 0})
 	}
 	cases := make([]c13Case, len(scns))
 	sem := make(chan struct{}, 8)
@@ -609,6 +637,9 @@ func runC13(env *Env) error {
 		}
 		if c.Scn.ToSv > 0 {
 			env.Count("traffic-to-server")
+		}
+		if c.Scn.Mix {
+			env.Count("traffic-of-all-four-kinds")
 		}
 		if c.Scn.ToCl+c.Scn.ToSv > 0 {
 			b, _ := json.Marshal(c.Scn)
